@@ -110,6 +110,21 @@ def gen_history(seed, i, maxlen):
         d = rng.choice(sorted(dirs_of[n]))
         evs.append({"e": "run", "args": {"local": d}})
         return {"project": p, "events": evs, "final": {"local": d, "apps": [n]}}
+    listed = [f for f in files if f != "laze-project.yml"]
+    if listed and rng.random() < 0.1:
+        # a listed lazefile that is missing during one run (refused: nothing may be left behind that vouches for the tree) and back for
+        # the next one
+        f = rng.choice(listed)
+        a = rng.choice(pool[:3])
+        evs += [{"e": "remove", "f": f}, {"e": "run", "args": a}, {"e": "restore", "f": f}]
+        return {"project": p, "events": evs, "final": a}
+    filedirs = sorted({os.path.dirname(f) for f in p["files"]})
+    below = sorted((d, n) for n, ds in dirs_of.items() for dd in ds for d in filedirs if d and dd.startswith(d + "/"))
+    if below and rng.random() < 0.5:
+        # an app defined BELOW the start directory is not an app of the start directory: refused cold, and after a wide run there
+        d, n = rng.choice(below)
+        evs.append({"e": "run", "args": {"local": d}})
+        return {"project": p, "events": evs, "final": {"local": d, "apps": [n]}}
     if rng.random() < 0.35:
         # a history that moves between start directories (local mode shares one cache file for all of them)
         loc = [a for a in pool if "local" in a]
@@ -346,10 +361,21 @@ def run_history(sc):
         return {"skipped": True}
     h = Hist(sc)
     out = {"obs": [], "model_events": [], "final": None, "window_edit": False}
+    missing = set()
     try:
         for ev in sc["events"]:
             if ev["e"] in ("edit", "touch"):
                 h.edit(ev["f"], touch=ev["e"] == "touch")
+                out["model_events"].append({"e": "edit", "f": ev["f"]})
+                out["obs"].append({"ok": "edit"})
+            elif ev["e"] in ("remove", "restore"):
+                # for the protocol model a file that disappears or comes back is a file that changed
+                if ev["e"] == "remove":
+                    os.remove(os.path.join(h.s.d, ev["f"]))
+                    missing.add(ev["f"])
+                else:
+                    h.edit(ev["f"], touch=False)
+                    missing.discard(ev["f"])
                 out["model_events"].append({"e": "edit", "f": ev["f"]})
                 out["obs"].append({"ok": "edit"})
             elif ev["e"] == "swap":
@@ -362,6 +388,14 @@ def run_history(sc):
                 r = h.run(args, stop=ev.get("stop"), edit_during=ev.get("edit_during"), nocache=bool(ev.get("nocache")))
                 if not ev.get("stop") and r["rc"] != 0 and not r["hit"]:
                     failing = True        # generation itself reports an error: an external event for the protocol model
+                if missing and r["rc"] != 0 and not r["hit"] and "No such file" in r["stderr"]:
+                    # LOADING failed (a listed lazefile is missing): the run ends while parsing, before anything in the build
+                    # directory is touched — for the protocol model a run that stops right after the cache check
+                    out["model_events"].append({"e": "run", "key": key_of(args, h.uuid, conf), "files": h.files(), "stop": "after_cache_check",
+                                                "failing": False, "fam": h.fam})
+                    out["obs"].append({"fam": h.fam, "report": "stopped", "ninja": h.ninja_class(),
+                                       "cache": "record" if os.path.exists(h.cache_path()) else "absent", "rc": r["rc"], "stderr": r["stderr"][-200:]})
+                    continue
                 if ev.get("edit_during") and r.get("window_reached"):
                     out["window_edit"] = True
                     # model: run stopped after parse... the edit lands inside the window; model it as kill-free: parse, edit, rest
@@ -467,7 +501,7 @@ def judge(chk, sc, res):
     dirty, binary_of, uuid, wrote = {"global": False, "local": False}, {"global": 1, "local": 1}, 1, {"global": None, "local": None}
     case = {"scenario": {"events": sc["events"], "final": sc["final"], "project": sc["project"]}}
     for ev, ob in zip(sc["events"], res["obs"]):
-        if ev["e"] in ("edit", "touch"):
+        if ev["e"] in ("edit", "touch", "remove", "restore"):
             dirty = {"global": True, "local": True}
         elif ev["e"] == "swap":
             uuid = 3 - uuid
